@@ -31,6 +31,7 @@ Definition hyp_report (m : module) : json :=
   JObj [("module_wf", JBool (module_wfb m));
         ("module_known", JBool (module_known m));
         ("calls_closed", JBool (calls_closedb m (used_functions m)));
+        ("calls_in_range", JBool (calls_in_rangeb m));
         ("no_global_removed", JBool (all_true (used_globals m (used_functions m))));
         ("lazy_funcs", jn (count_lazy m))].
 
